@@ -394,8 +394,8 @@ def grammar_text(g: Grammar, name: str | None = None) -> str:
         out.append(f'@@grammar :: {name}')
     for k, v in g.directives.items():
         if k in ('whitespace', 'comments', 'eol_comments'):
-            if v is None:
-                out.append(f'@@{k} :: None')
+            if v is None or v == '':
+                out.append(f'@@{k} :: None')   # `//` would start a comment in the grammar language
             else:
                 out.append(f'@@{k} :: {pat_text(v)}')
         elif k == 'namechars':
